@@ -35,7 +35,7 @@ ASSUMPTIONS = [
     "fixup variables contain no blank and do not start with '$'",
     "output fields do not contain the separator in use (ESC, or ',' outside the parameter field when comma_sep) nor ';' in instance names; "
     "names without instance part do not start with 'instance:'",
-    "coordinates in (-5e-7, 0) are not generated: format_float renders them '-0' (C05's finding), which re-exports as '0'",
+    "coordinates in (-5e-7, 0) are not generated: format_float renders them '-0' (C05's finding, open: known finding negative-zero), which re-exports as '0'",
     "worldspawn is not hidden; format version is 100; Strata viewport lists have exactly four entries and no 2D coordinate equals +-65536",
 ]
 
@@ -493,6 +493,13 @@ def replay_known(ctx, finding):
         vmf.create_ent('info_target', **{''.join(map(chr, w['key'])): ''.join(map(chr, w['value']))})
         fails, _ = check_map(ctx, vmf, False, True, False, w)
         return any(k in ('export-unparseable', 'reparse-raises') or k.startswith('field') for k, _ in fails)
+    if isinstance(w, dict) and w.get('special') == 'negative-zero':
+        from srctools.vmf import VMF, Camera
+        from srctools.math import Vec
+        vmf = VMF()
+        Camera(vmf, Vec(w['x'], 0, 0), Vec(0, 64, 0))
+        fails, _ = check_map(ctx, vmf, False, True, False, w)
+        return any(k == 'text-not-fixed-point' for k, _ in fails)
     if not isinstance(w, dict) or not ('gen' in w or 'file' in w):
         return None
     vmf = build_case(w)
